@@ -39,6 +39,7 @@ def make_build(widths):
         ca, cb, depth_a = part[:3]
         depth_b = part[3] if len(part) > 3 else 1
         inner = part[4] if len(part) > 4 else None        # the inner constructor of the deep side(s), fixed
+        inner_b = part[5] if len(part) > 5 else inner       # (a different one for the B side, when given)
         st = State()
         bs = [z3.BitVec('t%d' % i, 8) for i in range(2 * DESC)]
         for i, b in enumerate(bs):
@@ -48,7 +49,7 @@ def make_build(widths):
             if not deep:
                 st.pc.append(bs[o + 1] == 0)
             elif inner is not None:
-                st.pc.append(bs[o + 1] == inner)
+                st.pc.append(bs[o + 1] == (inner if o == 0 else inner_b))
             else:
                 st.pc.append(z3.ULT(bs[o + 1], len(CONS)))
             st.pc.append(z3.ULT(bs[o + 2], len(LEAVES)))
@@ -104,10 +105,14 @@ def run_laws(chk, prop, mask, tier, seed, parts=None):
             # every constructor pair at depth <= 1, plus depth 2 on the A side for a FIXED list of pairs
             deep = [(5, 0), (5, 5), (6, 6), (7, 7), (1, 1), (3, 4), (8, 9), (5, 6)]
             parts = [(a, b, 1) for a, b in allpairs] + [(a, b, 2) for a, b in deep if a != 0]
+            parts += [(w, w, 2, 2, ia, ib) for w in (1, 2, 6, 7) for ia, ib in ((4, 3), (9, 8), (3, 3), (4, 4), (6, 6))]
         else:
             # a seeded sample of the constructor pairs (the leaf x leaf pair always included)
             sample = [(0, 0)] + rnd.sample([p for p in allpairs if p != (0, 0)], 35)
             parts = [(a, b, 1) for a, b in sample]
+            # both sides two constructors deep, for the pairs where the inner one decides: a pointer / optional / slice of
+            # an anonymous array or struct against the same wrapper of the concrete one
+            parts += [(1, 1, 2, 2, 4, 3), (1, 1, 2, 2, 9, 8), (6, 6, 2, 2, 4, 3), (2, 2, 2, 2, 4, 3)]
     else:
         parts = [tuple(p) if len(p) > 2 else (p[0], p[1], 1) for p in parts]
     job = Job(ENTRY, make_build(widths), make_judge(mask), max_steps=3_000_000)
